@@ -166,3 +166,68 @@ void h_fn_suppr(void)
   COVER(r && cfg[0] && cfg[3]); COVER(!r && (ck & k)); COVER(r && allow && has_sym && sym_has_aliases && n_aliases == 2); COVER(cfg[2] && fs_compile_ok[1] && has_sym && allow && alias_from_name && sym_has_aliases && n_aliases > 0);
   WITNESS_END();
 }
+
+/* ---------------------------------------------------------------------------------------------------------------
+   type_suppression::suppresses_diff, has_data_member_inserted_* part (real, with the real insertion_range::eval_boundary
+   on real integer boundaries): a class diff with up to 2 inserted data members at SYMBOLIC offsets, possibly deleted
+   members, symbolic old/new sizes, up to 2 integer ranges with symbolic bounds; every other question the function asks
+   (type name/kind match, reach kind) is answered "yes" by stubs. */
+typedef struct { void *next; vstr_t key; sp_t val; u64 hash; } umap_node;       /* _Hash_node<pair<const string, sptr>, true> */
+typedef struct { void *buckets; u64 nbuckets; void *before_begin; u64 count; u64 pol[2]; void *single; } umap_obj;
+static u64 d_obj[8], t_obj[8], cls_obj[2][8], mem_obj[2][4];
+static u64 cls_size[2], mem_off[2];
+static umap_obj deleted_m, inserted_m; static umap_node ins_nodes[2];
+static void *cls_vt[20];
+static u64 cls_size_of(struct class_abigail__ir__class_or_union *c) { return (void *)c == (void *)cls_obj[0] ? cls_size[0] : cls_size[1]; }
+void *_ZN7abigail10comparison12is_type_diffEPKNS0_4diffE(void *d) { return d; }
+void _ZNK7abigail10comparison4diff13first_subjectEv(void *sret, void *d) { sp_t *r = sret; r->p = t_obj; r->c = 0; }
+void _ZNK7abigail10comparison4diff14second_subjectEv(void *sret, void *d) { sp_t *r = sret; r->p = t_obj; r->c = 0; }
+void _ZN7abigail2ir7is_typeERKSt10shared_ptrINS0_17type_or_decl_baseEE(void *sret, void *x) { sp_t *r = sret; r->p = t_obj; r->c = 0; }
+void _ZNK7abigail10comparison4diff7contextEv(void *sret, void *d) { sp_t *r = sret; r->p = 0; r->c = 0; }
+u8 _ZNK7abigail5suppr16type_suppression15suppresses_typeERKSt10shared_ptrINS_2ir9type_baseEERKS2_INS_10comparison12diff_contextEE(void *s, void *t, void *c) { return 1; }
+void _ZNK7abigail10comparison10class_diff16first_class_declEv(void *sret, void *d) { sp_t *r = sret; r->p = cls_obj[0]; r->c = 0; }
+void _ZNK7abigail10comparison10class_diff17second_class_declEv(void *sret, void *d) { sp_t *r = sret; r->p = cls_obj[1]; r->c = 0; }
+void *_ZNK7abigail10comparison19class_or_union_diff20deleted_data_membersB5cxx11Ev(void *d) { return &deleted_m; }
+void *_ZNK7abigail10comparison19class_or_union_diff21inserted_data_membersB5cxx11Ev(void *d) { return &inserted_m; }
+u64 _ZN7abigail2ir22get_data_member_offsetESt10shared_ptrINS0_9decl_baseEE(void *sp) { void *m = ((sp_t *)sp)->p; return m == (void *)mem_obj[0] ? mem_off[0] : mem_off[1]; }
+u8 *__dynamic_cast(u8 *p, u8 *src, u8 *dst, u64 hint)
+{
+  if (dst == (u8 *)&_ZTIN7abigail10comparison9enum_diffE) return 0;                                   /* the diff is a class diff */
+  if (dst == (u8 *)&_ZTIN7abigail5suppr16type_suppression15insertion_range21fn_call_expr_boundaryE) return 0;   /* boundaries are integers */
+  return p;
+}
+
+void h_insertion_ranges(void)
+{
+  fs_mode = 0;
+#ifndef NRANGES
+#define NRANGES 1
+#endif
+  u32 nr = NRANGES, ni = nondet_u32(); __CPROVER_assume(ni <= 2);
+  int rb[2], re[2];
+  for (int i = 0; i < 2; i++) { rb[i] = (int)nondet_u32(); re[i] = (int)nondet_u32(); __CPROVER_assume(rb[i] >= 0 && rb[i] <= 1000 && re[i] >= 0 && re[i] <= 1000); }
+  cls_size[0] = nondet_u64(); cls_size[1] = nondet_u64(); mem_off[0] = nondet_u64(); mem_off[1] = nondet_u64();
+  __CPROVER_assume(cls_size[0] <= 4096 && cls_size[1] <= 4096 && mem_off[0] <= 4096 && mem_off[1] <= 4096);
+  _Bool has_deleted = nondet_bool();
+  cls_vt[13] = (void *)cls_size_of; cls_obj[0][0] = (u64)cls_vt; cls_obj[1][0] = (u64)cls_vt;
+  memset(&deleted_m, 0, sizeof deleted_m); deleted_m.count = has_deleted ? 1 : 0;
+  memset(&inserted_m, 0, sizeof inserted_m); inserted_m.count = ni;
+  for (u32 i = 0; i < 2; i++) { vs_make(&ins_nodes[i].key, i ? "n" : "m"); ins_nodes[i].val.p = mem_obj[i]; ins_nodes[i].val.c = 0; ins_nodes[i].next = 0; }
+  if (ni >= 1) inserted_m.before_begin = &ins_nodes[0];
+  if (ni == 2) ins_nodes[0].next = &ins_nodes[1];
+  void *s = w_ts_with_ranges(nr, rb, re);
+  u8 r = _ZNK7abigail5suppr16type_suppression15suppresses_diffEPKNS_10comparison4diffE(s, (void *)d_obj);
+  /* reference: every inserted member must lie in some range */
+  int all_in = 1;
+  for (u32 m = 0; m < 2; m++) if (m < ni) {
+    int in = 0;
+    for (u32 k = 0; k < 2; k++) if (k < nr && rb[k] <= re[k] && mem_off[m] >= (u64)rb[k] && mem_off[m] <= (u64)re[k]) in = 1;
+    if (!in) all_in = 0;
+  }
+  PROP(!(r && has_deleted), "C24-ranges-never-hide-deletion: a has_data_member_inserted_* constraint never hides a change that removes a data member");
+  PROP(!(r && cls_size[0] > cls_size[1]), "C24-ranges-never-hide-shrink: ... nor a change that shrinks the type");
+  PROP(!(r && !all_in), "C24-ranges-every-insertion-inside: ... nor a change that inserts a member outside all the given ranges");
+  PROP(r || has_deleted || cls_size[0] > cls_size[1] || !all_in, "C24-ranges-suppress-when-satisfied: insertions that all lie inside the ranges, without deletion or shrinking, are suppressed");
+  COVER(r && ni == 2); COVER(!r && ni == 2 && !has_deleted && cls_size[0] <= cls_size[1]); COVER(r && ni == 0);
+  WITNESS_END();
+}
